@@ -2,8 +2,11 @@ package main
 
 import (
 	"fmt"
+	"go/token"
 	"sort"
 	"strings"
+
+	"golang.org/x/tools/go/ssa"
 )
 
 // Static (dataflow / syntactic) discharge of frame, lock and spawn obligations.
@@ -26,6 +29,8 @@ func runStatic(prog *Prog, sc StaticCheck) *StaticResult {
 		return runCodecTable(prog, sc)
 	case "frame":
 		return runFrame(prog, sc)
+	case "gate":
+		return runGate(prog, sc)
 	default:
 		res.Obligations = 1
 		res.Failures = append(res.Failures, "unknown static check kind "+sc.Kind)
@@ -90,5 +95,113 @@ func runFrame(prog *Prog, sc StaticCheck) *StaticResult {
 	}
 	sort.Strings(keys)
 	res.Detail = map[string]interface{}{"func": sc.Args["func"], "writes": keys}
+	return res
+}
+
+// runGate: path obligation "every successful return of F is dominated by a successful call of G":
+// each return whose error result is the nil constant must be dominated by the not-error successor
+// of a branch on the result of a call to G (e.g. ParseData returns a profile only after CheckValid).
+func runGate(prog *Prog, sc StaticCheck) *StaticResult {
+	res := &StaticResult{Name: sc.Name, Kind: sc.Kind}
+	fn := prog.FindFunc(modPath+"/"+sc.Pkg, sc.Args["func"])
+	if fn == nil {
+		res.Obligations = 1
+		res.Failures = append(res.Failures, "binding: function "+sc.Args["func"]+" not found")
+		return res
+	}
+	gate := sc.Args["gate"]
+	// successor blocks that are entered only when a call to the gate returned a nil error
+	var okBlocks []*ssa.BasicBlock
+	for _, b := range fn.Blocks {
+		ifi, ok := b.Instrs[len(b.Instrs)-1].(*ssa.If)
+		if !ok {
+			continue
+		}
+		bin, ok := ifi.Cond.(*ssa.BinOp)
+		if !ok || (bin.Op != token.NEQ && bin.Op != token.EQL) {
+			continue
+		}
+		var other ssa.Value
+		if c, ok := bin.Y.(*ssa.Const); ok && c.Value == nil {
+			other = bin.X
+		} else if c, ok := bin.X.(*ssa.Const); ok && c.Value == nil {
+			other = bin.Y
+		} else {
+			continue
+		}
+		call, ok := other.(*ssa.Call)
+		if !ok {
+			if ex, ok2 := other.(*ssa.Extract); ok2 {
+				call, ok = ex.Tuple.(*ssa.Call)
+			}
+			if !ok {
+				continue
+			}
+		}
+		callee := call.Call.StaticCallee()
+		if callee == nil || contractName(callee) != gate {
+			continue
+		}
+		// NEQ nil: false branch (Succs[1]) is the success branch; EQL nil: true branch
+		succ := b.Succs[1]
+		if bin.Op == token.EQL {
+			succ = b.Succs[0]
+		}
+		if len(succ.Preds) == 1 {
+			okBlocks = append(okBlocks, succ)
+		}
+	}
+	nret := 0
+	for _, b := range fn.Blocks {
+		ret, ok := b.Instrs[len(b.Instrs)-1].(*ssa.Return)
+		if !ok || len(ret.Results) == 0 {
+			continue
+		}
+		last := ret.Results[len(ret.Results)-1]
+		c, isConst := last.(*ssa.Const)
+		if !isConst || c.Value != nil || !isErrorType(last.Type()) {
+			// returns a (possibly) non-nil error: if it is not syntactically nil it must not be a success path we cannot see
+			if !isConst {
+				res.Obligations++
+				// a non-constant error value: acceptable only if it is known non-nil (fmt.Errorf / errors.New result) or the block is gated
+				if call, ok := last.(*ssa.Call); ok {
+					if cal := call.Call.StaticCallee(); cal != nil && (cal.String() == "fmt.Errorf" || cal.String() == "errors.New") {
+						res.Discharged++
+						continue
+					}
+				}
+				gated := false
+				for _, ob := range okBlocks {
+					if ob.Dominates(b) {
+						gated = true
+					}
+				}
+				if gated {
+					res.Discharged++
+				} else {
+					res.Failures = append(res.Failures, fmt.Sprintf("%s returns an error value that may be nil at %s without passing %s", sc.Args["func"], prog.Fset.Position(ret.Pos()), gate))
+				}
+			}
+			continue
+		}
+		nret++
+		res.Obligations++
+		gated := false
+		for _, ob := range okBlocks {
+			if ob.Dominates(b) {
+				gated = true
+			}
+		}
+		if gated {
+			res.Discharged++
+			res.Samples = append(res.Samples, map[string]interface{}{"obligation": fmt.Sprintf("%s#gate(%s) return at %s", sc.Args["func"], gate, prog.Fset.Position(ret.Pos())), "backend": "static dominance"})
+		} else {
+			res.Failures = append(res.Failures, fmt.Sprintf("%s has a successful return at %s that is not dominated by a successful call to %s", sc.Args["func"], prog.Fset.Position(ret.Pos()), gate))
+		}
+	}
+	if nret == 0 {
+		res.Obligations++
+		res.Failures = append(res.Failures, sc.Args["func"]+": no successful return found (vacuous gate)")
+	}
 	return res
 }
